@@ -220,6 +220,15 @@ theorem C05_stream_answer_schedule_free (vs : Variants) (kind : List UInt8 → B
 /-! ### Clause 1 — no backend response ⇒ a failure, reported as a failure -/
 
 /-- Every answer a handler gives before it proxies is an explicit error with a non-2xx status. -/
+private theorem broken_anthropicError (vs : Variants) (err : Bool) (s : Nat) :
+    brokenStreamAnswer vs err (anthropicError s) = anthropicError s := by
+  unfold brokenStreamAnswer anthropicError
+  cases vs.brokenStream <;> simp
+
+private theorem broken_noerr (vs : Variants) (base : Seen) : brokenStreamAnswer vs false base = base := by
+  unfold brokenStreamAnswer
+  cases vs.brokenStream <;> simp
+
 private theorem beforeProxy_is_failure (vs : Variants) (rq : Req) (eps : List Nat) (a : Seen)
     (hrej : ∀ st, rq.rejected = some st → is2xx st = false)
     (h : beforeProxy vs rq eps = .inl a) : failureReported a = true := by
@@ -313,8 +322,8 @@ theorem C05_no_false_success_partial (vs : Variants) (rq : Req) (kind : List UIn
           unfold translateStream
           simp only [hevs]
           cases k with
-          | zero => simp [observe, Rec.run, Rec.init, Rec.step, streamMain, hfixed]; decide
-          | succ k => simp [observe, Rec.run, Rec.init, Rec.step, streamMain, hfixed]; decide
+          | zero => simp [observe, Rec.run, Rec.init, Rec.step, streamMain, hfixed, broken_anthropicError]; decide
+          | succ k => simp [observe, Rec.run, Rec.init, Rec.step, streamMain, hfixed, broken_anthropicError]; decide
 
 /-- **No false success — full strength**, for the tree with `fixes/C05-stream-handoff.patch` applied
     (whatever the state of the other two defect classes). -/
@@ -348,13 +357,75 @@ private theorem direct_dialect (pv : ProxyView) : dialectOk true (direct (anthro
 private theorem streamMain_dialect (vs : Variants) (kind : List UInt8 → BodyKind) (r : Rec) (pipe : List UInt8) :
     dialectOk true (streamMain vs kind r pipe) = true := by
   have h2 : ∀ s, dialectOk true (anthropicError s) = true := by intro s; simp [dialectOk, anthropicError]
-  have h3 : dialectOk true (transformStream kind pipe) = true := by simp [dialectOk, transformStream, is2xx]
+  have h3 : dialectOk true (transformStream vs kind pipe) = true := by
+    unfold transformStream
+    cases vs.emptyStream
+    · simp [dialectOk, is2xx]
+    · simp only []
+      split
+      · simp [dialectOk, is2xx]
+      · exact h2 502
   unfold streamMain
   split
   · exact h2 502
   · split
     · exact h2 _
     · exact h3
+
+/-- **No fabricated completion on the translated streaming path** (repaired translator): whatever
+    the backends did and whichever goroutine is faster, the client never gets a 2xx answer that is an
+    empty body or an event stream without a single content block. With the pinned translator a
+    backend 200 whose body is not a completion stream is answered exactly that way (witness). -/
+theorem C05_stream_never_fabricates_fixed (vs : Variants) (h : vs.emptyStream = .fixed)
+    (kind : List UInt8 → BodyKind) (tr : List Ev) (k : Nat) :
+    noEmptySuccess (translateStream vs kind tr k) = true := by
+  have hs : ∀ r pipe, noEmptySuccess (streamMain vs kind r pipe) = true := by
+    intro r pipe
+    unfold streamMain transformStream
+    rw [h]
+    split
+    · simp [noEmptySuccess, anthropicError]
+    · split
+      · simp [noEmptySuccess, anthropicError]
+      · simp only []
+        split <;> simp [noEmptySuccess, anthropicError]
+  unfold translateStream
+  simp only []
+  split <;> exact hs _ _
+
+/-- The same for what the handler finally answers on that path (the proxy's own error included). -/
+theorem C05_translated_stream_answer_never_fabricates_fixed (vs : Variants) (h : vs.emptyStream = .fixed)
+    (kind : List UInt8 → BodyKind) (tr : List Ev) (k : Nat) (err : Bool) :
+    noEmptySuccess (brokenStreamAnswer vs err (translateStream vs kind tr k)) = true := by
+  have hb := C05_stream_never_fabricates_fixed vs h kind tr k
+  unfold brokenStreamAnswer
+  cases vs.brokenStream
+  · exact hb
+  · simp only []
+    split
+    · split <;> simp [noEmptySuccess, anthropicError]
+    · exact hb
+
+/-- **A stream that broke is not passed off as a complete message** (repaired hand-off): when the
+    proxy call failed after the event stream had begun, the client's stream ends in an `error` event
+    without message_stop; when nothing had been written, the answer is a 502 Anthropic error. The
+    pinned hand-off finished such a stream as a complete message (second conjunct). -/
+theorem C05_broken_stream_not_finished :
+    (∀ vs : Variants, vs.brokenStream = .fixed →
+      (brokenStreamAnswer vs true ⟨200, .eventStream, .sse true⟩).body = .sseBroken ∧
+      brokenStreamAnswer vs true ⟨200, .eventStream, .sse false⟩ = anthropicError 502) ∧
+    brokenStreamAnswer allPinned true ⟨200, .eventStream, .sse true⟩ = ⟨200, .eventStream, .sse true⟩ := by
+  refine ⟨fun vs h => ?_, by decide⟩
+  unfold brokenStreamAnswer
+  rw [h]
+  exact ⟨by decide, by decide⟩
+
+theorem C05_stream_fabricates_witness :
+    noEmptySuccess (translateStream allPinned (fun _ => .jsonObject)
+      [.selected 0, .inc 0, .contacted 0, .wroteHeader 0 200 [], .wrote 0 [123, 125], .recSuccess 0, .dec 0] 7) = false ∧
+    noEmptySuccess (translateStream allFixed (fun _ => .jsonObject)
+      [.selected 0, .inc 0, .contacted 0, .wroteHeader 0 200 [], .wrote 0 [123, 125], .recSuccess 0, .dec 0] 7) = true := by
+  decide
 
 /-- **Anthropic dialect** (all variants, no exclusion): on the Anthropic route — passthrough or
     translation, streaming or not, whatever the backends do and whichever goroutine is faster — every
@@ -383,6 +454,18 @@ theorem C05_anthropic_dialect (vs : Variants) (rq : Req) (kind : List UInt8 → 
       cases hstream : rq.stream with
       | true =>
         simp only [↓reduceIte]
+        have hbroken : ∀ (e : Bool) (base : Seen), dialectOk true base = true → dialectOk true (brokenStreamAnswer vs e base) = true := by
+          intro e base hbase
+          unfold brokenStreamAnswer
+          cases vs.brokenStream
+          · exact hbase
+          · simp only []
+            split
+            · split
+              · simp [dialectOk, is2xx]
+              · exact h2 502
+            · exact hbase
+        apply hbroken
         unfold translateStream
         simp only
         split <;> exact streamMain_dialect vs kind _ _
@@ -451,7 +534,7 @@ theorem C05_status_passthrough_partial (vs : Variants) (rq : Req) (kind : List U
           simp only
           cases hstream : rq.stream with
           | true =>
-            simp only [↓reduceIte]
+            simp only [↓reduceIte, hview, broken_noerr]
             rw [C05_stream_answer_schedule_free vs kind select outcome targets hsel k (proxyEvents (execute select outcome targets).1).length]
             unfold translateStream
             have hevs : proxyEvents (execute select outcome targets).1 = [.writeHeader r.status, .write r.body, .finish] := by
